@@ -26,6 +26,10 @@ class GeoKeyError(Exception):
     pass
 
 
+class GeoIndexError(GeoKeyError):
+    """a sequence index out of range (IndexError, not KeyError)"""
+
+
 def P(y: str, x: str):
     return ('P', (Aff.sym(y), Aff.sym(x)))
 
@@ -226,6 +230,13 @@ class GeoInterp:
                     return ('N', v[1][1])
                 if a == 'yx':
                     return ('U', (('N', v[1][0]), ('N', v[1][1])))
+            if a == 'value' and v[0] in ('O', 'E'):
+                # the integer an enum member stands for (auto() evaluated by position)
+                ename = 'Orientation' if v[0] == 'O' else v[1]
+                member = v[1] if v[0] == 'O' else v[2]
+                info = self.index.enum(ename)
+                if member in info.members:
+                    return ('N', Aff.const(info.members[member]))
             if v[0] == 'A':
                 (ymin, ymax), (xmin, xmax) = v[1]
                 table = {'ymin': ymin, 'ymax': ymax, 'xmin': xmin, 'xmax': xmax,
@@ -243,6 +254,8 @@ class GeoInterp:
                 i = ev(e.slice)
                 if i[0] == 'N' and i[1].is_const() and -len(v[1]) <= int(i[1].k) < len(v[1]):
                     return v[1][int(i[1].k)]
+                if i[0] == 'N' and i[1].is_const():
+                    raise GeoIndexError(int(i[1].k))
                 raise AnalysisError(f'geometry expression: index `{s}`')
             if v[0] in ('D', 'DV'):
                 return self.lookup(v, ev(e.slice), depth)
@@ -505,8 +518,9 @@ class GeoInterp:
             try:
                 self.eval(walk.expand(val), env, module, depth)
                 return False
-            except GeoKeyError:
-                return 'KeyError' in f[1]
+            except GeoKeyError as ex_:
+                kind_ = 'IndexError' if isinstance(ex_, GeoIndexError) else 'KeyError'
+                return kind_ in f[1] or 'LookupError' in f[1] or 'Exception' in f[1]
             except AnalysisError:
                 if 'AttributeError' in f[1] or 'TypeError' in f[1]:
                     return True
